@@ -181,6 +181,41 @@ Definition print (v : value) : list Z := pr false v.
 
 End Print.
 
+(* ---- hashes built by a history of hset / hdel (the abstract map: keys in order of first insertion,
+        a deleted key leaves, a re-inserted key goes to the end; string and symbol keys) ---- *)
+
+Fixpoint sitems_eqb (a b : list sitem) : bool :=
+  match a, b with
+  | [], [] => true
+  | Rune x :: a', Rune y :: b' => (x =? y) && sitems_eqb a' b'
+  | BadByte x :: a', BadByte y :: b' => (x =? y) && sitems_eqb a' b'
+  | _, _ => false
+  end.
+
+Definition key_eqb (a b : value) : bool :=
+  match a, b with
+  | VStr x, VStr y => sitems_eqb x y
+  | VSym x, VSym y => list_eqb x y
+  | _, _ => false
+  end.
+
+Fixpoint hist_set (k v : value) (h : list (value * value)) : list (value * value) :=
+  match h with
+  | [] => [(k, v)]
+  | (k', v') :: r => if key_eqb k k' then (k', v) :: r else (k', v') :: hist_set k v r
+  end.
+
+Fixpoint hist_del (k : value) (h : list (value * value)) : list (value * value) :=
+  match h with
+  | [] => []
+  | (k', v') :: r => if key_eqb k k' then r else (k', v') :: hist_del k r
+  end.
+
+Inductive hop : Type := HSet (k v : value) | HDel (k : value).
+
+Definition hist_apply (ops : list hop) : value :=
+  VHash (fold_left (fun h o => match o with HSet k v => hist_set k v h | HDel k => hist_del k h end) ops []).
+
 (* what an io.RuneScanner delivers for the printed bytes: an invalid byte arrives as U+FFFD *)
 Definition scan_text (t : list Z) : list Z := map (fun c => if c <? 0 then 65533 else c) t.
 
